@@ -4,6 +4,7 @@
   nothing fires, quiet prefixes.
 -/
 import CedarModel.Cancel
+import CedarProofs.GenNonEmpty  -- non-emptiness of the generated C19 fact tables: built with everything that builds C19
 
 namespace Cedar.Cancel
 
